@@ -38,12 +38,20 @@ type check struct {
 	trace       string // trace specification module
 	gen         func(g *gen.G, thor bool) []gen.Program
 	batch       int      // programs per TLC batch
+	sim         *simSpec // (G): additional programs = behaviours of a TLA+ state machine simulated by TLC
 	race        bool     // also run the programs in a -race, decimal_pure_go build: any race report is a violation
 	builds      []string // build-tag sets under which the programs run; the event logs must be identical (default: the default build only)
 	rule        string
 	assumptions []string
 	req         []string // coverage cells that a run must hit (else the run is vacuous: exit 2)
 	reqThor     []string
+}
+
+// simSpec asks TLC to simulate a state-machine module and to print the action labels (spec -> code).
+type simSpec struct {
+	mod            string
+	qNum, tNum     int // behaviours
+	qDepth, tDepth int // steps per behaviour
 }
 
 func (c *check) required(thor bool) []string {
@@ -63,6 +71,9 @@ func n(thor bool, q, t int) int {
 var mcRound = model{mod: "MC_Round", quick: map[string]string{"NMax": "120", "PMax": "3"}, thorough: map[string]string{"NMax": "1100", "PMax": "3"}}
 var mcSum = model{mod: "MC_Sum", quick: map[string]string{"NMax": "30", "PMax": "2", "GapMax": "9"}, thorough: map[string]string{"NMax": "110", "PMax": "2", "GapMax": "10"}}
 var mcBigNat = model{mod: "MC_BigNat", quick: map[string]string{"Bound": "60", "NRand": "100", "MaxLen": "24"}, thorough: map[string]string{"Bound": "300", "NRand": "1000", "MaxLen": "30"}}
+
+var coreSim = &simSpec{mod: "MC_CoreSim", qNum: 40, tNum: 1500, qDepth: 40, tDepth: 60}
+var mcCore = model{mod: "MC_Core", quick: map[string]string{"Depth": "2"}, thorough: map[string]string{"Depth": "3"}}
 
 var commonAssumptions = []string{
 	"the BigInteger accelerators of BigNat agree with their pure TLA+ definitions beyond the operands compared by MC_BigNat",
@@ -89,7 +100,7 @@ var checks = map[string]*check{
 		req:         []string{"FMA:differs-from-mul-add", "FMA:same-as-mul-add", "FMA:tie-up", "FMA:tie-down", "FMA:fits", "FMA:special"},
 	},
 	"C04": {
-		id: "C04", models: []model{}, trace: "Trace_Core", batch: 4,
+		id: "C04", models: []model{}, trace: "Trace_Core", batch: 4, sim: coreSim,
 		gen:         func(g *gen.G, thor bool) []gen.Program { return gen.Special(g, thor) },
 		rule:        "complete enumeration of operation x operand classes {-Inf,-finite,-0,+0,+finite,+Inf}^k x six modes (x aliasing shapes, receiver precision 0 / > 0, finite magnitudes ordinary / near MinExp / near MaxExp); a case is distinct by operation x class tuple (cov cell)",
 		assumptions: commonAssumptions,
@@ -121,7 +132,7 @@ var checks = map[string]*check{
 		req:         []string{"K:add10VV", "K:sub10VV", "K:add10VW", "K:sub10VW", "K:shl10VU", "K:shr10VU", "K:mulAdd10VWW", "K:addMul10VVW", "K:div10VWW", "K:mul10WW", "K:div10W", "K:div10WW", "K:add10VV:inplace", "K:shr10VU:inplace"},
 	},
 	"C08": {
-		id: "C08", models: []model{}, trace: "Trace_Core", batch: 4,
+		id: "C08", models: []model{mcCore}, trace: "Trace_Core", batch: 4, sim: coreSim,
 		gen: func(g *gen.G, thor bool) []gen.Program {
 			return append(gen.History(g, n(thor, 40, 600), n(thor, 200, 400)), gen.Raw(g, n(thor, 300, 5000))...)
 		},
@@ -129,7 +140,7 @@ var checks = map[string]*check{
 		assumptions: commonAssumptions,
 	},
 	"C09": {
-		id: "C09", models: []model{}, trace: "Trace_Core", batch: 4,
+		id: "C09", models: []model{mcCore}, trace: "Trace_Core", batch: 4, sim: coreSim,
 		gen: func(g *gen.G, thor bool) []gen.Program {
 			return append(gen.History(g, n(thor, 40, 600), n(thor, 200, 400)), gen.Alias(g, n(thor, 150, 3000))...)
 		},
@@ -137,7 +148,7 @@ var checks = map[string]*check{
 		assumptions: commonAssumptions,
 	},
 	"C10": {
-		id: "C10", models: []model{}, trace: "Trace_Core", batch: 4,
+		id: "C10", models: []model{}, trace: "Trace_Core", batch: 4, sim: coreSim,
 		gen:         func(g *gen.G, thor bool) []gen.Program { return gen.Alias(g, n(thor, 300, 8000)) },
 		rule:        "each generated operation instance is executed under every aliasing partition of (z,x,y) (5) / (z,x,y,u) (13) and three receiver histories (fresh, previously 400-800 digits, previously special without buffer); all variants are validated against the buffer-free specification, so they agree with each other",
 		assumptions: commonAssumptions,
